@@ -218,15 +218,24 @@ func (w *World) getPath(c *Case, m *fieldmask.FieldMask, root *Ty, path string) 
 		}
 		hangMemo[string(js)] = false
 		childSpawns++
-		cmd := exec.Command(os.Args[0], "child")
-		cmd.Stdin = bytes.NewReader(js)
-		if _, err := cmd.Output(); err != nil {
-			if ee, ok := err.(*exec.ExitError); ok {
-				if ws, ok := ee.Sys().(syscall.WaitStatus); ok && (ws.Signaled() || ws.ExitStatus() == 7) {
-					hangMemo[string(js)] = true
-					return "crash", "", true // stopped by its CPU-time watchdog / limit
+		// a hang verdict needs two independent children stopped by the watchdog (a single kill may be noise)
+		killed := 0
+		for try := 0; try < 2; try++ {
+			cmd := exec.Command(os.Args[0], "child")
+			cmd.Stdin = bytes.NewReader(js)
+			if _, err := cmd.Output(); err != nil {
+				if ee, ok := err.(*exec.ExitError); ok {
+					if ws, ok := ee.Sys().(syscall.WaitStatus); ok && (ws.Signaled() || ws.ExitStatus() == 7) {
+						killed++
+						continue
+					}
 				}
 			}
+			break
+		}
+		if killed == 2 {
+			hangMemo[string(js)] = true
+			return "crash", "", true // stopped by its CPU-time watchdog / limit
 		}
 	}
 	out, pkey = w.getPathInProc(m, root, path)
@@ -238,7 +247,7 @@ func child() error {
 	inChild = true
 	// one second of CPU time is three orders of magnitude more than any terminating call needs;
 	// a CPU limit (not a wall-clock limit) keeps the verdict independent of machine load
-	if err := syscall.Setrlimit(syscall.RLIMIT_CPU, &syscall.Rlimit{Cur: 1, Max: 2}); err != nil {
+	if err := syscall.Setrlimit(syscall.RLIMIT_CPU, &syscall.Rlimit{Cur: 3, Max: 4}); err != nil {
 		return err
 	}
 	var c Case
@@ -265,7 +274,7 @@ func child() error {
 				var ru syscall.Rusage
 				syscall.Getrusage(syscall.RUSAGE_SELF, &ru)
 				used := time.Duration(ru.Utime.Nano() - ru0.Utime.Nano())
-				if used > 150*time.Millisecond {
+				if used > 300*time.Millisecond {
 					os.Exit(7)
 				}
 			}
